@@ -121,6 +121,58 @@ let rule_of_sexp = function
   | S.Atom "identity_empty" -> RuleIdentityEmpty
   | _ -> bad "rule"
 
+(* 8-significant-digit correctly rounded decimalisation of a double (C printf) *)
+let dec8 (x : float) : dec =
+  if Float.is_nan x then DNan
+  else if x = infinity then DInf false
+  else if x = neg_infinity then DInf true
+  else begin
+    let s = Printf.sprintf "%.7e" (Float.abs x) in       (* d.ddddddde[+-]XX *)
+    let neg = Float.sign_bit x in
+    let epos = String.index s 'e' in
+    let mant = String.sub s 0 epos in
+    let ex = int_of_string (String.sub s (epos + 1) (String.length s - epos - 1)) in
+    let digits = List.filter_map (fun c -> if c >= '0' && c <= '9' then Some (nat_of_int (Char.code c - 48)) else None)
+        (List.init (String.length mant) (String.get mant)) in
+    DFin (neg, digits, z_of_int ex)
+  end
+let anon_text (_ : float gate) = chars_of_string "Anonymous gate: <repr>"
+
+let sx_qsop = function
+  | QRxy (th, ph, q) -> S.List [atom "rxy"; sx_float th; sx_float ph; sx_z q]
+  | QRz (th, q) -> S.List [atom "rz"; sx_float th; sx_z q]
+  | QCNOT (c, t) -> S.List [atom "cnot"; sx_z c; sx_z t]
+  | QCZ (c, t) -> S.List [atom "cz"; sx_z c; sx_z t]
+  | QMeasure (q, ch, idx) -> S.List [atom "measure"; sx_z q; sx_z ch; sx_z idx]
+  | QReset q -> S.List [atom "reset"; sx_z q]
+let vkind_of_sexp = function S.Atom "q" -> VQubit | S.Atom "b" -> VBit | _ -> VOther
+let avar_of_sexp = function
+  | S.List [n; k; sz] -> { v_name = str_of_sexp n; v_kind = vkind_of_sexp k; v_size = z_of_sexp sz }
+  | _ -> bad "avar"
+let operand_of_sexp = function
+  | S.List [S.Atom "var"; n] -> OVar (str_of_sexp n)
+  | S.List [S.Atom "index"; n; idx] -> OIndex (str_of_sexp n, list_of_sexp z_of_sexp idx)
+  | S.List [S.Atom "int"; k] -> OInt (z_of_sexp k)
+  | S.List [S.Atom "float"; x] -> OFloat (float_of_sexp x)
+  | _ -> bad "operand"
+let astmt_of_sexp = function
+  | S.List [n; ops] -> { a_name = str_of_sexp n; a_ops = list_of_sexp operand_of_sexp ops }
+  | _ -> bad "astmt"
+let pyval_of_sexp = function
+  | S.List [S.Atom "int"; z] -> VInt (z_of_sexp z)
+  | S.List [S.Atom "bool"; b] -> VBool (bool_of_sexp b)
+  | S.List [S.Atom "str"; s] -> VStr (str_of_sexp s)
+  | S.Atom "none" -> VNone
+  | S.List [S.Atom "qubit"; z] -> VQubitObj (z_of_sexp z)
+  | S.List [S.Atom "bit"; z] -> VBitObj (z_of_sexp z)
+  | S.List [S.Atom "floatobj"; x] -> VFloatObj (float_of_sexp x)
+  | S.List [S.Atom "intobj"; z] -> VIntObj (z_of_sexp z)
+  | _ -> bad "pyval"
+let bcall_of_sexp = function
+  | S.List [S.Atom "instr"; n; args] -> BInstr (str_of_sexp n, list_of_sexp pyval_of_sexp args)
+  | S.List [S.Atom "comment"; t] -> BComment (str_of_sexp t)
+  | _ -> bad "bcall"
+
 (* ---------- operations ---------- *)
 let d = dict
 
@@ -163,6 +215,22 @@ let run (op : string) (args : S.t list) : S.t =
       let (e, out) = replace d (str_of_sexp target) (rule_of_sexp rule) (stmts_of_sexp ss) in
       S.List [sx_opt sx_err e; sx_stmts out]
   | "merge", [n; ss] -> sx_result sx_stmts (merge d (z_of_sexp n) (stmts_of_sexp ss))
+  | "mapping_ok", [l] -> sx_bool (mapping_ok (list_of_sexp z_of_sexp l))
+  | "mapper_ok", [n; l] -> sx_bool (mapper_ok (z_of_sexp n) (list_of_sexp z_of_sexp l))
+  | "remap", [nq; l; ss] -> sx_result sx_stmts (remap (z_of_sexp nq) (list_of_sexp z_of_sexp l) (stmts_of_sexp ss))
+  | "render_py8", [x] -> sx_str (render_py8 (dec8 (float_of_sexp x)))
+  | "v3_float", [x] -> sx_str (fix_literal (render_py8 (dec8 (float_of_sexp x))))
+  | "write3", [nq; nb; ss] -> sx_result sx_str (write3 dec8 anon_text (z_of_sexp nq) (z_of_sexp nb) (stmts_of_sexp ss))
+  | "export_v1", [nq; ss] -> sx_result sx_str (export_v1 dec8 (z_of_sexp nq) (stmts_of_sexp ss))
+  | "export_qs", [nq; nb; ss] ->
+      sx_result (fun (ops, bm) -> S.List [sx_list sx_qsop ops; sx_list (sx_opt (sx_pair sx_z sx_z)) bm])
+        (export_qs d (z_of_sexp nq) (z_of_sexp nb) (stmts_of_sexp ss))
+  | "parse_program", [vars; sts] ->
+      sx_result (fun ((nq, nb), ir) -> S.List [sx_z nq; sx_z nb; sx_stmts ir])
+        (parse_program d (list_of_sexp avar_of_sexp vars) (list_of_sexp astmt_of_sexp sts))
+  | "builder_run", [nq; nb; calls] ->
+      let ((ir, _), log) = builder_run d (z_of_sexp nq) (z_of_sexp nb) ([], XH) (list_of_sexp bcall_of_sexp calls) in
+      S.List [sx_stmts ir; sx_list (sx_opt sx_err) log]
   | _ -> bad ("unknown op " ^ op)
 
 let () =
